@@ -329,6 +329,12 @@ where
             .into()),
         }
     }
+
+    // at least the variant tag
+    #[inline]
+    fn minimum_bytes_needed() -> usize {
+        std::mem::size_of::<u8>()
+    }
 }
 
 impl<C> Writable<C> for Changeset
